@@ -486,8 +486,198 @@ theorem nl_not_mem_atomLogical (env : DepEnv) (p : Int × Attrs) (hfmt : ∀ v, 
   have h1 := nl_not_mem_field py!" CHG=" (by decide) (intAttr p.2 "chg") (fun c => c ≠ 0 ∧ -15 ≤ c ∧ c ≤ 15)
   have h2 := nl_not_mem_field py!" RAD=" (by decide) (intAttr p.2 "rad") (fun c => 1 ≤ c ∧ c ≤ 3)
   have h3 := nl_not_mem_field py!" MASS=" (by decide) (intAttr p.2 "mass") (fun c => 0 < c)
-  simp only [atomLogical, List.mem_append, not_or]
-  refine ⟨⟨⟨⟨⟨⟨⟨⟨⟨⟨⟨nl_not_mem_pyStrInt _, by decide⟩, hsym⟩, by decide⟩, hfmt _⟩, by decide⟩, hfmt _⟩, by decide⟩,
-    hfmt _⟩, by decide⟩, h1⟩, h2⟩, h3⟩
+  simp only [atomLogical, List.mem_append, not_or, and_assoc]
+  exact ⟨nl_not_mem_pyStrInt _, by decide, hsym, by decide, hfmt _, by decide, hfmt _, by decide, hfmt _, by decide,
+    h1, h2, h3⟩
+
+theorem nl_not_mem_bondLogical (p : Int × Int × Int × Attrs) (hb : '\n' ∉ bondTypeOf p.2.2.2) :
+    '\n' ∉ bondLogical p := by
+  simp only [bondLogical, List.mem_append, not_or, and_assoc]
+  exact ⟨nl_not_mem_pyStrInt _, by decide, hb, by decide, nl_not_mem_pyStrInt _, by decide, nl_not_mem_pyStrInt _⟩
+
+theorem mem_numbered {α} (l : List α) (p : Int × α) (h : p ∈ numbered l) : p.2 ∈ l := by
+  simp only [numbered, List.mem_map] at h
+  obtain ⟨q, hq, rfl⟩ := h
+  have h := (List.mem_zipIdx' hq).2
+  rw [h]; exact List.getElem_mem _
+
+theorem nl_not_mem_logicalLines (env : DepEnv) (g : Graph) (h : NoNewline env g) :
+    ∀ l ∈ logicalLines env g, '\n' ∉ l := by
+  intro l hl
+  simp only [logicalLines, List.mem_append, List.mem_cons, List.not_mem_nil, or_false] at hl
+  rcases hl with ((((rfl | rfl | rfl) | hl) | rfl) | hl) | rfl
+  · decide
+  · simp only [countsLine, List.mem_append, not_or, and_assoc]
+    exact ⟨by decide, nl_not_mem_pyStrInt _, by decide, nl_not_mem_pyStrInt _, by decide⟩
+  · decide
+  · simp only [atomLines, List.mem_map] at hl
+    obtain ⟨p, hp, rfl⟩ := hl
+    exact nl_not_mem_atomLogical env p h.fmt6 (h.sym p hp)
+  · decide
+  · unfold bondBlock at hl
+    split at hl
+    · simp at hl
+    · simp only [List.mem_append, List.mem_cons, List.not_mem_nil, or_false, bondLines, List.mem_map] at hl
+      rcases hl with (rfl | ⟨p, hp, rfl⟩) | rfl
+      · decide
+      · exact nl_not_mem_bondLogical p (h.bond p.2 (mem_numbered _ p hp))
+      · decide
+  · decide
+
+theorem nl_not_mem_fileLines (env : DepEnv) (g : Graph) (hv : '\n' ∉ env.version) (hs : '\n' ∉ env.nowStamp)
+    (h : NoNewline env g) : ∀ p ∈ fileLines env g, '\n' ∉ p := by
+  intro p hp
+  simp only [fileLines, List.mem_append, List.mem_flatMap, List.mem_cons, List.not_mem_nil, or_false] at hp
+  rcases hp with (hp | ⟨l, hl, hp⟩) | rfl
+  · exact nl_not_mem_header env hv hs p hp
+  · intro hc
+    rcases mem_wrap l p hp _ hc with h1 | h1 | h1
+    · revert h1; decide
+    · exact nl_not_mem_logicalLines env g h l hl h1
+    · revert h1; decide
+  · decide
+
+/-- **C09, physical lines.** Splitting the produced text at newlines gives back exactly the physical
+lines `fileLines` (so `C09_line_length` speaks about the lines of the file). -/
+theorem C09_split_lines (env : DepEnv) (g : Graph) (hv : '\n' ∉ env.version) (hs : '\n' ∉ env.nowStamp)
+    (h : NoNewline env g) : split (join py!"\n" (fileLines env g)) py!"\n" = fileLines env g :=
+  split_join '\n' (fileLines env g) (by simp [fileLines]) (nl_not_mem_fileLines env g hv hs h)
+
+/-! ## 4. C09: the reader's splicing undoes the wrapping -/
+
+/-- "does not end in a dash" is preserved by appending such strings -/
+theorem getLast?_append_ne (a b : Str) (ha : a.getLast? ≠ some '-') (hb : b.getLast? ≠ some '-') :
+    (a ++ b).getLast? ≠ some '-' := by
+  rw [List.getLast?_append]
+  cases h : b.getLast? with
+  | none => simpa using ha
+  | some c => rw [h] at hb; simpa using hb
+
+theorem getLast?_toDigits (n : Nat) : (Nat.toDigits 10 n).getLast? ≠ some '-' := by
+  intro h
+  have hm := List.mem_of_getLast? h
+  exact absurd (Nat.isDigit_of_mem_toDigits (by decide) (by decide) hm) (by decide)
+
+/-- `str()` of an integer ends in a digit -/
+theorem getLast?_pyStrInt (n : Int) : (pyStrInt n).getLast? ≠ some '-' := by
+  rw [pyStrInt_eq]
+  split
+  · exact getLast?_toDigits _
+  · rw [List.getLast?_cons_of_ne_nil Nat.toDigits_ne_nil]
+    exact getLast?_toDigits _
+
+theorem getLast?_field (pre : Str) (o : Option Int) (P : Int → Prop) [DecidablePred P] :
+    (match o with | some c => if P c then pre ++ pyStrInt c else [] | none => []).getLast? ≠ some '-' := by
+  cases o with
+  | none => simp
+  | some c =>
+    by_cases h : P c
+    · simp only [h, if_true]
+      rw [List.getLast?_append]
+      cases h' : (pyStrInt c).getLast? with
+      | none => exact absurd (List.getLast?_eq_none_iff.mp h') (by
+          rw [pyStrInt_eq]; split <;> simp [Nat.toDigits_ne_nil])
+      | some d => have := getLast?_pyStrInt c; rw [h'] at this; simpa using this
+    · simp [h]
+
+/-- an atom line ends in the `0` of the atom-atom mapping or in the digits of CHG/RAD/MASS -/
+theorem getLast?_atomLogical (env : DepEnv) (p : Int × Attrs) : (atomLogical env p).getLast? ≠ some '-' := by
+  unfold atomLogical
+  refine getLast?_append_ne _ _ (getLast?_append_ne _ _ (getLast?_append_ne _ _ ?_ ?_) ?_) ?_
+  · rw [List.getLast?_append]; simp
+  · exact getLast?_field _ _ (fun c => c ≠ 0 ∧ -15 ≤ c ∧ c ≤ 15)
+  · exact getLast?_field _ _ (fun c => 1 ≤ c ∧ c ≤ 3)
+  · exact getLast?_field _ _ (fun c => 0 < c)
+
+theorem getLast?_append_of_ne (a b : Str) (hb : b.getLast? ≠ some '-') (hne : b ≠ []) :
+    (a ++ b).getLast? ≠ some '-' := by
+  rw [List.getLast?_append]
+  cases h : b.getLast? with
+  | none => exact absurd (List.getLast?_eq_none_iff.mp h) hne
+  | some c => rw [h] at hb; simpa using hb
+
+theorem pyStrInt_ne_nil (n : Int) : pyStrInt n ≠ [] := by
+  rw [pyStrInt_eq]; split <;> simp [Nat.toDigits_ne_nil]
+
+theorem getLast?_bondLogical (p : Int × Int × Int × Attrs) : (bondLogical p).getLast? ≠ some '-' := by
+  unfold bondLogical
+  exact getLast?_append_of_ne _ _ (getLast?_pyStrInt _) (pyStrInt_ne_nil _)
+
+/-- no logical line of the connection table ends in a dash (so no physical line is mistaken for a
+continued line) -/
+theorem getLast?_logicalLines (env : DepEnv) (g : Graph) : ∀ l ∈ logicalLines env g, l.getLast? ≠ some '-' := by
+  intro l hl
+  simp only [logicalLines, List.mem_append, List.mem_cons, List.not_mem_nil, or_false] at hl
+  rcases hl with ((((rfl | rfl | rfl) | hl) | rfl) | hl) | rfl
+  · decide
+  · unfold countsLine
+    exact getLast?_append_of_ne _ _ (by decide) (by decide)
+  · decide
+  · simp only [atomLines, List.mem_map] at hl
+    obtain ⟨p, _, rfl⟩ := hl
+    exact getLast?_atomLogical env p
+  · decide
+  · unfold bondBlock at hl
+    split at hl
+    · simp at hl
+    · simp only [List.mem_append, List.mem_cons, List.not_mem_nil, or_false, bondLines, List.mem_map] at hl
+      rcases hl with (rfl | ⟨p, _, rfl⟩) | rfl
+      · decide
+      · exact getLast?_bondLogical p
+      · decide
+  · decide
+
+/-- a line that is not a continued line is passed through -/
+theorem splice_cons_plain (l : Str) (rest : List Str) (hne : rest ≠ [])
+    (h : (startswith l v30 && endswith l ['-']) = false) :
+    splice (l :: rest) = (do let t ← splice rest; pure (l :: t)) := by
+  obtain ⟨l₂, r, rfl⟩ := List.exists_cons_of_ne_nil hne
+  rw [splice]
+  simp [h]
+
+theorem splice_flatMap_wrap (ls : List Str) (rest : List Str) (h : ∀ l ∈ ls, l.getLast? ≠ some '-') :
+    splice (ls.flatMap wrap ++ rest) = (do let t ← splice rest; pure (ls.map (fun l => v30 ++ l) ++ t)) := by
+  induction ls with
+  | nil => simp; cases splice rest <;> rfl
+  | cons l ls ih =>
+    rw [List.flatMap_cons, List.append_assoc, splice_wrap l _ (h l (by simp)), ih (fun l' hl' => h l' (by simp [hl']))]
+    cases splice rest <;> simp
+
+theorem header_not_continued (env : DepEnv) : ∀ p ∈ header env, (startswith p v30 && endswith p ['-']) = false := by
+  intro p hp
+  simp only [header, List.mem_cons, List.not_mem_nil, or_false] at hp
+  rcases hp with rfl | rfl | rfl | rfl
+  · decide
+  · simp [startswith, v30]
+  · decide
+  · decide
+
+/-- the spliced lines of the file: header, the logical lines with their `M  V30 ` prefix, `M  END` -/
+def splicedLines (env : DepEnv) (g : Graph) : List Str :=
+  header env ++ (logicalLines env g).map (fun l => v30 ++ l) ++ [py!"M  END"]
+
+theorem splice_fileLines (env : DepEnv) (g : Graph) : splice (fileLines env g) = .ok (splicedLines env g) := by
+  have hh := header_not_continued env
+  have hbody : splice ((logicalLines env g).flatMap wrap ++ [py!"M  END"]) =
+      .ok ((logicalLines env g).map (fun l => v30 ++ l) ++ [py!"M  END"]) := by
+    rw [splice_flatMap_wrap _ _ (getLast?_logicalLines env g)]
+    simp [splice]
+  have hne : (logicalLines env g).flatMap wrap ++ [py!"M  END"] ≠ [] := by simp
+  unfold fileLines splicedLines
+  rw [List.append_assoc]
+  generalize (logicalLines env g).flatMap wrap ++ [py!"M  END"] = body at hbody hne
+  simp only [header] at hh ⊢
+  simp only [List.cons_append, List.nil_append]
+  rw [splice_cons_plain _ _ (by simp) (hh _ (by simp)), splice_cons_plain _ _ (by simp) (hh _ (by simp)),
+    splice_cons_plain _ _ (by simp) (hh _ (by simp)), splice_cons_plain _ _ hne (hh _ (by simp)), hbody]
+  simp
+
+/-- **C09, splicing.** For every line length (no wrap, one wrap, several wraps) the reader's
+tokenizer sees exactly the logical lines the writer was given. -/
+theorem C09_splice (env : DepEnv) (g : Graph) (fuel : Nat) (hf : (fileLines env g).length + 1 ≤ fuel) :
+    Tucan.molfile_v3000_reader._tokenize_lines env fuel (fileLines env g) =
+      .ok ((header env).map tokens ++ (logicalLines env g).map (fun l => tokens (v30 ++ l)) ++ [tokens py!"M  END"]) := by
+  rw [tokenize_lines_ok env fuel _ hf, splice_fileLines]
+  simp [splicedLines, Function.comp_def]
 
 end Contracts.Writer
